@@ -127,6 +127,69 @@ def f(X: FLOAT[3], c: BOOL) -> FLOAT[3]:
 X = np.array([1, 2, 3], dtype=np.float32)
 INPUTS = [dict(X=X, c=np.array(True)), dict(X=X, c=np.array(False))]
 """,
+    # a while nested DIRECTLY in a for whose condition variable is initialised before the OUTER loop and assigned only in the
+    # inner body: the condition is carried across the outer iterations (exposed use of the while header)
+    "while_cond_carried_across_outer_for": """
+@script(default_opset=op)
+def f(a: INT64, n: INT64) -> INT64:
+    s = a * 1
+    c = s < 10
+    for i in range(3):
+        while c:
+            s = s + 4
+            c = s < 10
+    return s + n
+INPUTS = [dict(a=np.array(k, dtype=np.int64), n=np.array(1, dtype=np.int64)) for k in (0, 3, 9, 20)]
+""",
+    # ... the same with an outer while, a second carried variable and a use of the condition after the loops
+    "while_cond_carried_across_outer_while": """
+@script(default_opset=op)
+def f(a: INT64, n: INT64) -> Tuple[INT64, INT64]:
+    s = a * 1
+    t = n * 0
+    c = s < 8
+    go = t < n
+    while go:
+        while c:
+            s = s + 3
+            c = s < 8
+        t = t + 1
+        s = s - 5
+        go = t < n
+    return s, t
+INPUTS = [dict(a=np.array(a, dtype=np.int64), n=np.array(n, dtype=np.int64)) for a, n in ((0, 2), (7, 3), (9, 1), (2, 0))]
+""",
+    # ... and with the inner while inside an if inside the for, the condition read only by the while header
+    "while_cond_carried_through_if_in_for": """
+@script(default_opset=op)
+def f(a: INT64, n: INT64) -> INT64:
+    s = a * 1
+    c = s < 6
+    for i in range(4):
+        if i < n:
+            while c:
+                s = s + 2
+                c = s < 6
+        else:
+            s = s - 1
+    return s
+INPUTS = [dict(a=np.array(a, dtype=np.int64), n=np.array(n, dtype=np.int64)) for a, n in ((0, 2), (5, 4), (9, 1), (1, 0))]
+""",
+    # equal-valued literals of different Python types in ONE scope, the later ones in positions where no sibling operand fixes
+    # the type (1 then 1.0, 0 then 0.0, True beside 1): each literal keeps the element type of its own spelling
+    "literals_equal_value_other_type": """
+@script(default_opset=op)
+def f(x: FLOAT[3], c: BOOL) -> FLOAT[3]:
+    n = op.Shape(x)
+    m = n + 1 - 1
+    w = op.Expand(1.0, m)
+    k = op.Where(c, 1, 0)
+    kf = op.Where(c, 1.0, 0.0)
+    r = w / 2 + x * 0 + op.Cast(k, to=1) * kf
+    return r
+X = np.array([1, 2, 3], dtype=np.float32)
+INPUTS = [dict(x=X, c=np.array(True)), dict(x=X, c=np.array(False))]
+""",
     # tuple assignment from a multi-output op in both branches, both results live afterwards
     "split_in_branches": """
 @script(default_opset=op)
